@@ -19,7 +19,7 @@ pub fn gen_ep(r: &mut Prng) -> EpCfg {
     }
 }
 pub fn gen_link(r: &mut Prng) -> LinkCfg {
-    LinkCfg { window: *r.pick(&[1usize, 2, 8, 1 << 20]), latency_ms: if r.chance(1, 4) { *r.pick(&[1u64, 20, 300]) } else { 0 }, drop_after_close: r.chance(1, 4), ws_client: r.below(3) as u8 }
+    LinkCfg { window: *r.pick(&[1usize, 2, 8, 1 << 20]), latency_ms: if r.chance(1, 4) { *r.pick(&[1u64, 20, 300]) } else { 0 }, drop_after_close: r.chance(1, 4), ws_client: r.below(3) as u8, bp_flush: r.chance(1, 2) }
 }
 /// schedule policy: uniform, or starve/favour one class
 pub fn gen_weights(r: &mut Prng) -> [u32; NCLS] {
